@@ -554,6 +554,15 @@ pub fn explore(plan: &Plan, sum: &mut Summary, only: Option<&Damage>) -> Vec<Hit
                         };
                         facts.insert("snapshot_pointer_after_flip".into(), ptr.into());
                     }
+                    if field == "wal_segments" {
+                        // did the list itself change, or did the key go missing (the list would then have to be refused)?
+                        let now = dimg2.names.get(&name).and_then(|i| dimg2.inodes.get(i)).cloned().unwrap_or_default();
+                        let st = match serde_json::from_slice::<serde_json::Value>(&now).ok().map(|v| v.get("wal_segments").is_some()) {
+                            Some(true) => "entries_changed",
+                            _ => "key_missing",
+                        };
+                        facts.insert("segment_list_after_flip".into(), st.into());
+                    }
                     facts.insert("manifest_field".into(), field);
                 }
                 if mech.ends_with("other_snapshot_used") {
